@@ -270,3 +270,12 @@ def units(prop, tier):
 # NOT PROVED: bytearray arguments to update/encrypt/decrypt data parameters: they reach CMAC.update, whose body takes
 #   memoryview(msg) (engine: no memoryview over a mutable bytearray); the output= bytearray path IS proved (it reaches CMAC.update
 #   only through the callee contract).
+#
+# Vacuity / strength check (tools/mut.py, quick tier, 2026-09-26): semantic mutants -> exit 1 on the named obligation.
+#   C09  encrypt: `_omac[2].update(ct)` -> `update(plaintext)`          -> encrypt.lemma.stream
+#   C10  decrypt: successor `["decrypt","verify"]` + "digest"           -> decrypt.ensures.next
+#   C10  encrypt: guard -> `if False` (state `digested`)                -> encrypt.call_pre.valid_self / raises_iff (26 obligations)
+#   C01  digest: `tag[:self._mac_len]` -> `[:self._mac_len - 1]`        -> digest.ensures.tag, .inv_fin_len, .inv_fin_tag
+#   C01  __init__: `2 <= self._mac_len` -> `1 <=`                       -> __init__.raises_iff.ValueError.if, .inv_mac_len
+#   C02  __init__: OMAC prefix byte `i` -> `i + 1`                      -> __init__.lemma.m0
+#   C02  __init__: `initial_value=counter_int` -> `counter_int + 1`     -> __init__.ensures.inv_ctr_icb
